@@ -290,8 +290,20 @@ fn rand_script(rng: &mut Rng, len: usize) -> (Vec<Rd>, usize) {
 
 async fn one_case(cfg: &Cfg, segs: &[Seg], script: Vec<Rd>, default_read: usize, stats: &mut Stats, with_spec: bool) {
     let data = segs_bytes(segs);
-    let (cs, delivered, mut problems) = real_chunks(cfg, &data, script, default_read).await;
     let dtok = segs_token(segs);
+    // a chunker that panics on an input is reported on that input (and the suite goes on)
+    let script_tok: Vec<String> = script.iter().map(|e| match e { Rd::Pending => "p".to_string(), Rd::Bytes(n) => format!("b{}", n) }).collect();
+    let run = {
+        use futures_util::FutureExt;
+        std::panic::AssertUnwindSafe(real_chunks(cfg, &data, script, default_read)).catch_unwind().await
+    };
+    let (cs, delivered, mut problems) = match run {
+        Ok(v) => v,
+        Err(_) => {
+            h::emit_oracle_fail("chunker-panic", &format!("chunk {} {} script={} then reads of {}", cfg.token(), dtok, h::join(&script_tok, ","), default_read));
+            return;
+        }
+    };
     let req = format!("chunk {} {} {}", cfg.token(), dtok, h::join(&delivered, ","));
     let ans = chunks_token(&cs);
     h::emit_case(&req, &ans);
